@@ -1079,9 +1079,14 @@ def replay(ctx):
                     t3 = tree_of_spec(case['other_visible_spec'])
                     _, c = T.build_hash(t3, rng)
                     print('other :', json.dumps(c)[:600])
-                    if a.get('ok', {}).get('sha256') == c.get('ok', {}).get('sha256') and spec_of(visible(tree)) != spec_of(t3):
-                        report(ctx, 'replayed: two different trees have the same module sha256', case,
-                               k_classes(visible(tree)) | k_classes(t3))
+                    subjects = [(tree, a)]
+                    if 'mutated_spec' in case:
+                        subjects.append((t2, b))
+                    for tr, h in subjects:
+                        if h.get('ok', {}).get('sha256') == c.get('ok', {}).get('sha256') and spec_of(visible(tr)) != spec_of(t3):
+                            report(ctx, 'replayed: two different trees have the same module sha256', case,
+                                   k_classes(visible(tr)) | k_classes(t3))
+                            break
             finally:
                 T.close()
     else:
